@@ -1358,6 +1358,21 @@ pos("C07", "subscribe-decode-merges-repeated-filters", "a filter listed twice in
 neg("C07", "neg-subscribe-decode-locals", "decode loop with the QoS byte in a local",
     [(SUB, "		m.topics = append(m.topics, t)\n\n		m.qos = append(m.qos, src[total])\n		total++\n", "		q := src[total]\n		total++\n		m.topics = append(m.topics, t)\n		m.qos = append(m.qos, q)\n")])
 
+# ---------------------------------------------------------------- ring memory safety (B10)
+pos("C14", "ring-mask-equals-size", "the constructor sets mask = size: indices can reach len(buf)",
+    [(BUF, "		mask:  size - 1,", "		mask:  size,")],
+    ["C14/B10-ring-memory-safety/newBuffer:establishes-size-invariant"])
+pos("C14", "readwait-accepts-oversized-request", "ReadWait no longer refuses a request larger than the ring: the wrap path slices beyond the buffer",
+    [(BUF, "func (bf *buffer) ReadWait(n int) ([]byte, error) {\n	if int64(n) > bf.size {\n		return nil, bufio.ErrBufferFull\n	}\n", "func (bf *buffer) ReadWait(n int) ([]byte, error) {\n")],
+    ["C14/B10-ring-memory-safety/(*service.buffer).ReadWait:slice"])
+pos("C14", "writewait-wrap-test-off-by-one", "the in-place slice may end one byte past the buffer",
+    [(BUF, "	if pstart+int64(cnt) > bf.size {\n		return bf.buf[pstart:], true, nil\n	}", "	if pstart+int64(cnt) > bf.size+1 {\n		return bf.buf[pstart:], true, nil\n	}")],
+    ["C14/B10-ring-memory-safety/(*service.buffer).WriteWait:slice"])
+neg("C14", "neg-ring-constructor-locals", "constructor builds the ring through locals",
+    [(BUF, "	return &buffer{\n		id:    atomic.AddInt64(&bufcnt, 1),\n		buf:   make([]byte, size),\n		size:  size,\n		mask:  size - 1,", "	storage := make([]byte, size)\n	return &buffer{\n		id:    atomic.AddInt64(&bufcnt, 1),\n		buf:   storage,\n		size:  int64(len(storage)),\n		mask:  int64(len(storage)) - 1,")])
+neg("C14", "neg-writewait-end-local", "WriteWait with the end index in a local and the test reversed",
+    [(BUF, "	if pstart+int64(cnt) > bf.size {\n		return bf.buf[pstart:], true, nil\n	}\n\n	return bf.buf[pstart : pstart+int64(cnt)], false, nil", "	end := pstart + int64(cnt)\n	if end <= bf.size {\n		return bf.buf[pstart:end], false, nil\n	}\n\n	return bf.buf[pstart:], true, nil")])
+
 
 def main():
     os.makedirs(OUT, exist_ok=True)
